@@ -12,10 +12,12 @@
      process {n, v, evs, ok}                      the driver called ProcessBlock (v = -1: a hash no block n ever had)
      track   {n, v, ok}                           the driver called AddBlockToTrack
      reorg   {from, rows, ok}                     the driver called Reorg(from); rows = block rows the store deleted
+     ack     {}                                   the driver's acknowledgement of a Reorg reaches the detector (only used for
+                                                  the signature of known finding F6)
      restart {}                                   the node was stopped and started again on the same DB files
      end     {quiet, last, store:[{n,v,evs}]}     the chain has stopped and the node was run until at rest (quiet);
                                                   store = content of the store read back through its query methods
-     rpc, download, deliver, notify, ack, drift, panic   recorded for the reader; not judged
+     rpc, download, deliver, notify, drift, panic   recorded for the reader; not judged
 
    Predicates (each failure appends a record to `viol`):
      Ordered     delivered block numbers strictly increase between rewinds
@@ -42,15 +44,20 @@ VARIABLES l,        \* next line
           tip, fin,
           st,       \* delivered blocks not rewound: sequence of [n, v, evs]
           seen,     \* set of <<n, v>> tracked or processed
+          pendAck,  \* known-finding signatures: `from` of a Reorg whose acknowledgement has not reached the detector (-1 none)
+          forks,    \*   forks since the last delivery / rewind / restart
+          kfb,      \*   set of <<n, "F6"|"F7">>: blocks touched by the schedule of a listed finding
           viol
 
-vars == <<l, t, tag, B, cv, tip, fin, st, seen, viol>>
+vars == <<l, t, tag, B, cv, tip, fin, st, seen, pendAck, forks, kfb, viol>>
+kf == <<pendAck, forks, kfb>>
 
 Empty == [x \in {} |-> 0]
 
 Init ==
   /\ TLCSet(1, 0)
-  /\ l = 1 /\ t = 0 /\ tag = "latest" /\ B = Empty /\ cv = Empty /\ tip = 0 /\ fin = 0 /\ st = <<>> /\ seen = {} /\ viol = <<>>
+  /\ l = 1 /\ t = 0 /\ tag = "latest" /\ B = Empty /\ cv = Empty /\ tip = 0 /\ fin = 0 /\ st = <<>> /\ seen = {}
+  /\ pendAck = -1 /\ forks = 0 /\ kfb = {} /\ viol = <<>>
 
 V(kind, info) == [t |-> t, l |-> l, inv |-> kind, info |-> info]
 Ev == Trace[l].ev
@@ -68,6 +75,7 @@ EvCfg ==
   /\ Is("cfg")
   /\ t' = t + 1 /\ tag' = Trace[l].tag
   /\ B' = Empty /\ cv' = Empty /\ tip' = 0 /\ fin' = 0 /\ st' = <<>> /\ seen' = {}
+  /\ pendAck' = -1 /\ forks' = 0 /\ kfb' = {}
   /\ l' = l + 1 /\ UNCHANGED viol
 
 EvChain ==
@@ -79,33 +87,41 @@ EvChain ==
      IN /\ B' = nb @@ B
         /\ cv' = [n \in {bs[i].n : i \in 1..Len(bs)} |-> bs[nc[n]].v] @@ cv
   /\ tip' = Trace[l].tip /\ fin' = Trace[l].fin
-  /\ l' = l + 1 /\ UNCHANGED <<t, tag, st, seen, viol>>
+  /\ forks' = IF Trace[l].op = "fork" THEN forks + 1 ELSE forks
+  /\ l' = l + 1 /\ UNCHANGED <<t, tag, st, seen, pendAck, kfb, viol>>
 
 EvProcess ==
   /\ Is("process")
   /\ LET e == Trace[l]
          prev == IF st = <<>> THEN 0 ELSE st[Len(st)].n
          ordered == e.n > prev
-         v1 == IF ~ordered THEN <<V("Ordered", [n |-> e.n, after |-> prev])>> ELSE <<>>
-         v2 == IF ~Known(e.n, e.v) THEN <<V("Faithful", [n |-> e.n, v |-> e.v, why |-> "hash of no block with this number"])>>
+         v1 == IF ~ordered THEN <<V("Ordered", [n |-> e.n, after |-> prev, kf |-> "none"])>> ELSE <<>>
+         \* signature of finding F7: a block delivered as empty although it has watched logs, after >= 6 forks in a row
+         f7 == Known(e.n, e.v) /\ e.evs = <<>> /\ B[<<e.n, e.v>>].w # <<>> /\ forks >= 6
+         v2 == IF ~Known(e.n, e.v) THEN <<V("Faithful", [n |-> e.n, v |-> e.v, why |-> "hash of no block with this number", kf |-> "none"])>>
                ELSE IF e.evs # B[<<e.n, e.v>>].w
-               THEN <<V("Faithful", [n |-> e.n, v |-> e.v, got |-> e.evs, chain |-> B[<<e.n, e.v>>].w])>> ELSE <<>>
+               THEN <<V("Faithful", [n |-> e.n, v |-> e.v, got |-> e.evs, chain |-> B[<<e.n, e.v>>].w,
+                                     kf |-> IF f7 THEN "F7" ELSE "none"])>> ELSE <<>>
          skipped == IF ordered /\ Known(e.n, e.v)
                     THEN {b \in (prev + 1)..(e.n - 1) :
                             LET vb == Anc(e.n, e.v, b) IN vb >= 0 /\ B[<<b, vb>>].w # <<>>}
                     ELSE {}
-         v3 == IF skipped # {} THEN <<V("NoSkip", [n |-> e.n, v |-> e.v, marker |-> prev, skipped |-> skipped])>> ELSE <<>>
+         v3 == IF skipped # {} THEN <<V("NoSkip", [n |-> e.n, v |-> e.v, marker |-> prev, skipped |-> skipped, kf |-> "none"])>> ELSE <<>>
      IN IF e.ok
         THEN /\ viol' = viol \o v1 \o v2 \o v3
              /\ st' = Append(st, [n |-> e.n, v |-> e.v, evs |-> e.evs])
              /\ seen' = seen \cup {<<e.n, e.v>>}
-        ELSE UNCHANGED <<viol, st, seen>>
-  /\ l' = l + 1 /\ UNCHANGED <<t, tag, B, cv, tip, fin>>
+             /\ forks' = 0
+             /\ kfb' = IF f7 THEN kfb \cup {<<e.n, "F7">>} ELSE kfb
+        ELSE UNCHANGED <<viol, st, seen, forks, kfb>>
+  /\ l' = l + 1 /\ UNCHANGED <<t, tag, B, cv, tip, fin, pendAck>>
 
 EvTrack ==
   /\ Is("track")
   /\ seen' = IF Trace[l].ok THEN seen \cup {<<Trace[l].n, Trace[l].v>>} ELSE seen
-  /\ l' = l + 1 /\ UNCHANGED <<t, tag, B, cv, tip, fin, st, viol>>
+  \* signature of finding F6: a block at or above a rewind point is tracked before the detector saw the acknowledgement
+  /\ kfb' = IF Trace[l].ok /\ pendAck >= 0 /\ Trace[l].n >= pendAck THEN kfb \cup {<<Trace[l].n, "F6">>} ELSE kfb
+  /\ l' = l + 1 /\ UNCHANGED <<t, tag, B, cv, tip, fin, st, pendAck, forks, viol>>
 
 EvReorg ==
   /\ Is("reorg")
@@ -114,38 +130,53 @@ EvReorg ==
          gone == SelectSeq(st, LAMBDA r : r.n >= e.from)
      IN IF e.ok
         THEN /\ viol' = IF (e.rows > 0 \/ gone # <<>>) /\ stale = {}
-                        THEN Append(viol, V("NoSpurious", [from |-> e.from, rows |-> e.rows, deleted |-> gone])) ELSE viol
+                        THEN Append(viol, V("NoSpurious", [from |-> e.from, rows |-> e.rows, deleted |-> gone, kf |-> "none"])) ELSE viol
              /\ st' = SelectSeq(st, LAMBDA r : r.n < e.from)
-        ELSE UNCHANGED <<viol, st>>
-  /\ l' = l + 1 /\ UNCHANGED <<t, tag, B, cv, tip, fin, seen>>
+             /\ pendAck' = e.from /\ forks' = 0
+        ELSE UNCHANGED <<viol, st, pendAck, forks>>
+  /\ l' = l + 1 /\ UNCHANGED <<t, tag, B, cv, tip, fin, seen, kfb>>
+
+(* the acknowledgement reaches the detector *)
+EvAck ==
+  /\ Is("ack")
+  /\ pendAck' = -1
+  /\ l' = l + 1 /\ UNCHANGED <<t, tag, B, cv, tip, fin, st, seen, forks, kfb, viol>>
+
+EvRestart ==
+  /\ Is("restart")
+  /\ pendAck' = -1 /\ forks' = 0
+  /\ l' = l + 1 /\ UNCHANGED <<t, tag, B, cv, tip, fin, st, seen, kfb, viol>>
 
 EvEnd ==
   /\ Is("end")
   /\ LET s == Trace[l].store
          idx == 1..Len(s)
-         v0 == IF \E i \in idx : i > 1 /\ s[i - 1].n >= s[i].n THEN <<V("Ordered", [store |-> s])>> ELSE <<>>
+         v0 == IF \E i \in idx : i > 1 /\ s[i - 1].n >= s[i].n THEN <<V("Ordered", [store |-> s, kf |-> "none"])>> ELSE <<>>
          stale == {i \in idx : ~Canon(s[i].n, s[i].v)}
-         v1 == IF stale # {} THEN <<V("RewindLow", [rows |-> {s[i] : i \in stale}])>> ELSE <<>>
+         AllKf(I, f) == \A i \in I : <<s[i].n, f>> \in kfb
+         v1 == IF stale # {} THEN <<V("RewindLow", [rows |-> {s[i] : i \in stale}, kf |-> IF AllKf(stale, "F6") THEN "F6" ELSE "none"])>>
+               ELSE <<>>
          missing == {n \in 1..TipView : B[<<n, cv[n]>>].w # <<>> /\ ~\E i \in idx : s[i].n = n}
          wrong == {i \in idx : Canon(s[i].n, s[i].v) /\ s[i].evs # B[<<s[i].n, s[i].v>>].w}
          v2 == IF missing # {} \/ wrong # {}
-               THEN <<V("Converged", [missing |-> missing, wrong |-> {s[i] : i \in wrong}, last |-> Trace[l].last, tip |-> TipView])>>
+               THEN <<V("Converged", [missing |-> missing, wrong |-> {s[i] : i \in wrong}, last |-> Trace[l].last, tip |-> TipView,
+                                      kf |-> IF missing = {} /\ AllKf(wrong, "F7") THEN "F7" ELSE "none"])>>
                ELSE <<>>
      IN viol' = IF Trace[l].quiet THEN viol \o v0 \o v1 \o v2 ELSE viol
-  /\ l' = l + 1 /\ UNCHANGED <<t, tag, B, cv, tip, fin, st, seen>>
+  /\ l' = l + 1 /\ UNCHANGED <<t, tag, B, cv, tip, fin, st, seen, pendAck, forks, kfb>>
 
-Judged == {"cfg", "chain", "process", "track", "reorg", "end"}
+Judged == {"cfg", "chain", "process", "track", "reorg", "ack", "restart", "end"}
 EvOther ==
   /\ l <= Len(Trace) /\ Ev \notin Judged
-  /\ l' = l + 1 /\ UNCHANGED <<t, tag, B, cv, tip, fin, st, seen, viol>>
+  /\ l' = l + 1 /\ UNCHANGED <<t, tag, B, cv, tip, fin, st, seen, pendAck, forks, kfb, viol>>
 
 Finish ==
   /\ l = Len(Trace) + 1
   /\ PrintT(<<"VIOL", ToJson(viol)>>)
   /\ PrintT(<<"DONE", ToJson([lines |-> Len(Trace), traces |-> t])>>)
-  /\ l' = l + 1 /\ UNCHANGED <<t, tag, B, cv, tip, fin, st, seen, viol>>
+  /\ l' = l + 1 /\ UNCHANGED <<t, tag, B, cv, tip, fin, st, seen, pendAck, forks, kfb, viol>>
 
-Next == EvCfg \/ EvChain \/ EvProcess \/ EvTrack \/ EvReorg \/ EvEnd \/ EvOther \/ Finish
+Next == EvCfg \/ EvChain \/ EvProcess \/ EvTrack \/ EvReorg \/ EvAck \/ EvRestart \/ EvEnd \/ EvOther \/ Finish
 Spec == Init /\ [][Next]_vars
 
 HW == TLCSet(1, IF l > TLCGet(1) THEN l ELSE TLCGet(1))
